@@ -97,11 +97,13 @@ pub struct WorldParams {
     /// Probability numerator (out of 8) that an operation with seq > 0 carries the prune flag.
     pub prune_num: usize,
     pub body_kinds: usize,
+    /// Lower bound of a log's length (0 = logs may be empty); for bulk-volume scenarios.
+    pub min_ops_per_log: usize,
 }
 
 impl Default for WorldParams {
     fn default() -> Self {
-        WorldParams { max_authors: 3, max_logs_per_author: 2, max_ops_per_log: 8, prune_num: 1, body_kinds: 4 }
+        WorldParams { max_authors: 3, max_logs_per_author: 2, max_ops_per_log: 8, prune_num: 1, body_kinds: 4, min_ops_per_log: 0 }
     }
 }
 
@@ -115,7 +117,7 @@ impl LogWorld {
             for li in 0..n_logs {
                 let log_id = (ai as u64) * 16 + li as u64; // distinct authors may still share ids below
                 let log_id = if ctx::chance("world.shared_log_id", 1, 4) { li as u64 } else { log_id };
-                let n_ops = ctx::choose("world.ops", p.max_ops_per_log + 1);
+                let n_ops = if p.min_ops_per_log > 0 { ctx::range("world.ops", p.min_ops_per_log, p.max_ops_per_log.max(p.min_ops_per_log)) } else { ctx::choose("world.ops", p.max_ops_per_log + 1) };
                 let mut ops: Vec<Op> = vec![];
                 let mut backlink = None;
                 for seq in 0..n_ops as u32 {
